@@ -6,6 +6,7 @@ import faulthandler
 import importlib
 import json
 import os
+import signal
 import sys
 import threading
 import warnings
@@ -21,6 +22,7 @@ def main(argv):
   from vlib.ctx import Ctx, case_eval
   ctx = Ctx(prop, tier, seed, shard, nshards, soft_s=soft_s,
             replay=bool(replay))
+  ctx.partial_path = outfile + ".partial"
 
   # process-level monitors: exceptions Python would only print
   def unraisable(info):
@@ -53,9 +55,40 @@ def main(argv):
   if hasattr(mod, "setup"):
     mod.setup(ctx)
 
+  # A single case that burns CASE_CPU_S seconds of CPU (a library loop that
+  # never ends on an endless source, ...) is abandoned so that the rest of the
+  # shard still runs; it is an inconclusive note, never a verdict.  Not for
+  # checks that run library code on several threads (the signal arrives in
+  # the main thread only).
+  case_cpu_s = float(getattr(mod, "CASE_CPU_S", 60))
+  use_timer = case_cpu_s > 0 and hasattr(signal, "setitimer")
+
+  class CaseTimeout(BaseException):
+    pass
+
+  def on_timer(signum, frame):
+    raise CaseTimeout()
+  if use_timer:
+    signal.signal(signal.SIGVTALRM, on_timer)
+
   def one(case):
     try:
-      nontrivial = mod.run_case(ctx, case)
+      if use_timer:
+        signal.setitimer(signal.ITIMER_VIRTUAL, case_cpu_s)
+      try:
+        nontrivial = mod.run_case(ctx, case)
+      finally:
+        if use_timer:
+          signal.setitimer(signal.ITIMER_VIRTUAL, 0)
+    except CaseTimeout:
+      ctx.count("case-abandoned-after-cpu-budget")
+      ctx.count("harness_errors")
+      if len(ctx.notes) < 5:
+        ctx.notes.append({"harness_error": "case used more than %g s of CPU "
+                          "and was abandoned" % case_cpu_s,
+                          "case_repr": repr(case)[:1500]})
+      ctx.dump_partial()
+      nontrivial = False
     except Exception as exc:  # noqa
       ctx.crash(case, exc)
       nontrivial = False
@@ -68,6 +101,12 @@ def main(argv):
   else:
     for case in mod.cases(ctx):
       one(case)
+      if ctx.counters["case-abandoned-after-cpu-budget"] >= 3:
+        # the run is inconclusive anyway (unless a violation was witnessed):
+        # do not burn the budget of every further spinning case
+        ctx.notes.append({"harness_error": "three cases abandoned: the rest "
+                          "of this shard's workload was skipped"})
+        break
     if hasattr(mod, "finish"):
       mod.finish(ctx)
 
